@@ -6,8 +6,15 @@ variable {s s' t : St}
 
 theorem meas_lt_C0 (e1 : t.cur = s.cur) (e2 : t.callsLeft = s.callsLeft) (e3 : t.procs.length = s.procs.length)
     (e4 : preStart t = preStart s) (e5 : mF t = mF s) (e6 : mW t = mW s) (e7 : mR t = mR s) (e8 : mQ t = mQ s)
-    (h : pos t.cpc (fresh t) s.procs.length < pos s.cpc (fresh s) s.procs.length) : meas t < meas s :=
-  meas_lt_C e1 e2 e3 e4 e5 e6 (by rw [e7, e8]; omega)
+    (h : pos t.cpc (fresh t) s.procs.length < pos s.cpc (fresh s) s.procs.length)
+    (e9 : midB t ≤ midB s := by exact Nat.le_refl _) : meas t < meas s :=
+  meas_lt_C e1 e2 e3 e4 e5 e6 (by rw [e7, e8]; omega) e9
+
+/-- the same, the room for the mid-call `until_all_ready()` counted with the position -/
+theorem meas_lt_CM0 (e1 : t.cur = s.cur) (e2 : t.callsLeft = s.callsLeft) (e3 : t.procs.length = s.procs.length)
+    (e4 : preStart t = preStart s) (e5 : mF t = mF s) (e6 : mW t = mW s) (e7 : mR t = mR s) (e8 : mQ t = mQ s)
+    (h : pos t.cpc (fresh t) s.procs.length + midB t < pos s.cpc (fresh s) s.procs.length + midB s) : meas t < meas s :=
+  meas_lt_CM e1 e2 e3 e4 e5 e6 (by rw [e7, e8]; omega)
 
 /-- a consumer step that moves the pc only (as far as the measure can see) -/
 macro "cstep " h:ident : tactic => `(tactic|
@@ -21,13 +28,15 @@ theorem fresh_of (h1 : s.batch = []) (h2 : s.woken = false) : fresh s = true := 
 theorem meas_fStart_lt {call : Call} (hpc : s.cpc = .fStart) (hcur : s.cur = some call) (e1 : t.cur = s.cur)
     (e2 : t.callsLeft = s.callsLeft) (e3 : t.procs = s.procs) (e4 : t.cpc = .rdSending)
     (e5 : t.fpc = if call.chunks = 0 then .wrSending else .put) (e6 : t.fNext = 0) (e7 : t.fTotal = call.chunks)
-    (e8 : t.fAlive = true) (e9 : mW t = mW s) (e10 : mR t = mR s) (e11 : mQ t = mQ s) : meas t < meas s := by
+    (e8 : t.fAlive = true) (e9 : mW t = mW s) (e10 : mR t = mR s) (e11 : mQ t = mQ s)
+    (e12 : midB t = midB s := by rfl) : meas t < meas s := by
   unfold meas
   rw [e9, e10, e11]
   have hp1 : preStart s = true := by simp [preStart, hpc]
   have hp2 : preStart t = false := by simp [preStart, e4]
   unfold mC futW pendCall mF unsentF tokPend fA
-  rw [hp1, hp2, e1, e2, e3, e4, e5, e6, e7, e8, hpc, hcur]
+  rw [e12, hp1, hp2, e1, e2, e3, e4, e5, e6, e7, e8, hpc, hcur]
+  generalize midB s = MB
   simp only [Option.map_some, callW, pos, if_true]
   by_cases hk : call.chunks = 0
   · simp [hk, fOff]; omega
@@ -136,8 +145,20 @@ theorem meas_stepC_a (hL : LInv s) (h : stepC s = some s')
 theorem meas_take_lt {a : Option Nat} {r : List (Option Nat)} (hq : s.resQ = a :: r) (e0 : t.resQ = r)
     (e1 : t.cur = s.cur) (e2 : t.callsLeft = s.callsLeft) (e3 : t.procs.length = s.procs.length)
     (e4 : preStart t = preStart s) (e5 : mF t = mF s) (e6 : mW t = mW s) (e7 : mR t = mR s) (e8 : t.workQ = s.workQ)
-    (h : pos t.cpc (fresh t) s.procs.length < pos s.cpc (fresh s) s.procs.length + 20) : meas t < meas s := by
-  refine meas_lt_C e1 e2 e3 e4 e5 e6 ?_
+    (h : pos t.cpc (fresh t) s.procs.length < pos s.cpc (fresh s) s.procs.length + 20)
+    (e9 : midB t ≤ midB s := by exact Nat.le_refl _) : meas t < meas s := by
+  refine meas_lt_C e1 e2 e3 e4 e5 e6 ?_ e9
+  unfold mQ
+  rw [e7, e8, e0, hq]
+  simp only [List.length_cons]
+  omega
+
+theorem meas_take_ltM {a : Option Nat} {r : List (Option Nat)} (hq : s.resQ = a :: r) (e0 : t.resQ = r)
+    (e1 : t.cur = s.cur) (e2 : t.callsLeft = s.callsLeft) (e3 : t.procs.length = s.procs.length)
+    (e4 : preStart t = preStart s) (e5 : mF t = mF s) (e6 : mW t = mW s) (e7 : mR t = mR s) (e8 : t.workQ = s.workQ)
+    (h : pos t.cpc (fresh t) s.procs.length + midB t < pos s.cpc (fresh s) s.procs.length + midB s + 20) :
+    meas t < meas s := by
+  refine meas_lt_CM e1 e2 e3 e4 e5 e6 ?_
   unfold mQ
   rw [e7, e8, e0, hq]
   simp only [List.length_cons]
@@ -146,6 +167,9 @@ theorem meas_take_lt {a : Option Nat} {r : List (Option Nat)} (hq : s.resQ = a :
 theorem preStart_after {c' : CPc} (h : c' = .flowClear ∨ c' = .flowIsSet ∨ c' = .rdSending) {t : St} (ht : t.cpc = c') :
     preStart t = false := by
   unfold preStart; rw [ht]; rcases h with h | h | h <;> rw [h]
+
+theorem preStart_mid {i wid : Nat} {t : St} (ht : t.cpc = .midReady i wid) : preStart t = false := by
+  unfold preStart; rw [ht]
 
 theorem meas_stepC_b (hS : SafeInv s) (hV : LiveInv s) (h : stepC s = some s') (hc : loopPc s.cpc = true) :
     meas s' < meas s := by
@@ -204,10 +228,18 @@ theorem meas_stepC_b (hS : SafeInv s) (hV : LiveInv s) (h : stepC s = some s') (
           rw [this]; simp
       obtain ⟨c', b', w', buf', wf', fin', out', heq, hcl⟩ := afterResults_view { s with lock := none, cpc := .lockRel }
       rw [heq]
-      refine meas_lt_C0 rfl rfl rfl ?_ (mF_congr rfl rfl rfl rfl) (mW_congr rfl) (mR_congr rfl rfl) (mQ_congr rfl rfl) ?_
-      · rw [preStart_after hcl rfl]; simp [preStart, hpc]
-      · refine Nat.lt_of_le_of_lt (pos_after hcl _ _) ?_
-        rw [hfr]; simp only [hpc]; simp [pos]
+      rcases hcl with ⟨hcl, hfin⟩ | ⟨wid, hc', hcur, h0, hpos⟩
+      · refine meas_lt_C0 rfl rfl rfl ?_ (mF_congr rfl rfl rfl rfl) (mW_congr rfl) (mR_congr rfl rfl) (mQ_congr rfl rfl) ?_
+          (midB_mono_fin rfl rfl rfl hfin)
+        · rw [preStart_after hcl rfl]; simp [preStart, hpc]
+        · refine Nat.lt_of_le_of_lt (pos_after hcl _ _) ?_
+          rw [hfr]; simp only [hpc]; simp [pos]
+      · subst hc'
+        refine meas_lt_CM0 rfl rfl rfl ?_ (mF_congr rfl rfl rfl rfl) (mW_congr rfl) (mR_congr rfl rfl) (mQ_congr rfl rfl) ?_
+        · rw [preStart_mid rfl]; simp [preStart, hpc]
+        · have hrel := midB_release (s := s) (t := { s with lock := none, buffer := buf', wf := wf', finished := fin', out := out', batch := b', woken := w', cpc := .midReady 0 wid }) rfl rfl rfl hcur h0 hpos
+          rw [hfr]; simp only [hpc]; simp only [pos, Nat.sub_zero, Bool.false_eq_true, if_false]
+          omega
     · rename_i hcons
       have hfr : fresh s = true := by
         unfold fresh
@@ -228,19 +260,35 @@ theorem meas_stepC_b (hS : SafeInv s) (hV : LiveInv s) (h : stepC s = some s') (
       obtain ⟨c', b', w', buf', wf', fin', out', heq, hcl⟩ :=
         afterResults_view { s with resQ := r, batch := [], cpc := .getBlock }
       rw [heq]
-      refine meas_take_lt hq rfl rfl rfl rfl ?_ (mF_congr rfl rfl rfl rfl) (mW_congr rfl) (mR_congr rfl rfl) rfl ?_
-      · rw [preStart_after hcl rfl]; simp [preStart, hpc]
-      · refine Nat.lt_of_le_of_lt (pos_after hcl _ _) ?_
-        simp only [hpc]; simp [pos]
+      rcases hcl with ⟨hcl, hfin⟩ | ⟨wid, hc', hcur, h0, hpos⟩
+      · refine meas_take_lt hq rfl rfl rfl rfl ?_ (mF_congr rfl rfl rfl rfl) (mW_congr rfl) (mR_congr rfl rfl) rfl ?_
+          (midB_mono_fin rfl rfl rfl hfin)
+        · rw [preStart_after hcl rfl]; simp [preStart, hpc]
+        · refine Nat.lt_of_le_of_lt (pos_after hcl _ _) ?_
+          simp only [hpc]; simp [pos]
+      · subst hc'
+        refine meas_take_ltM hq rfl rfl rfl rfl ?_ (mF_congr rfl rfl rfl rfl) (mW_congr rfl) (mR_congr rfl rfl) rfl ?_
+        · rw [preStart_mid rfl]; simp [preStart, hpc]
+        · have hrel := midB_release (s := s) (t := { s with resQ := r, buffer := buf', wf := wf', finished := fin', out := out', batch := b', woken := w', cpc := .midReady 0 wid }) rfl rfl rfl hcur h0 hpos
+          simp only [hpc]; simp only [pos]
+          omega
     · rename_i i r hq
       simp only [Option.some.injEq] at h; subst h
       obtain ⟨c', b', w', buf', wf', fin', out', heq, hcl⟩ :=
         afterResults_view { s with resQ := r, batch := [i], cpc := .getBlock }
       rw [heq]
-      refine meas_take_lt hq rfl rfl rfl rfl ?_ (mF_congr rfl rfl rfl rfl) (mW_congr rfl) (mR_congr rfl rfl) rfl ?_
-      · rw [preStart_after hcl rfl]; simp [preStart, hpc]
-      · refine Nat.lt_of_le_of_lt (pos_after hcl _ _) ?_
-        simp only [hpc]; simp [pos]
+      rcases hcl with ⟨hcl, hfin⟩ | ⟨wid, hc', hcur, h0, hpos⟩
+      · refine meas_take_lt hq rfl rfl rfl rfl ?_ (mF_congr rfl rfl rfl rfl) (mW_congr rfl) (mR_congr rfl rfl) rfl ?_
+          (midB_mono_fin rfl rfl rfl hfin)
+        · rw [preStart_after hcl rfl]; simp [preStart, hpc]
+        · refine Nat.lt_of_le_of_lt (pos_after hcl _ _) ?_
+          simp only [hpc]; simp [pos]
+      · subst hc'
+        refine meas_take_ltM hq rfl rfl rfl rfl ?_ (mF_congr rfl rfl rfl rfl) (mW_congr rfl) (mR_congr rfl rfl) rfl ?_
+        · rw [preStart_mid rfl]; simp [preStart, hpc]
+        · have hrel := midB_release (s := s) (t := { s with resQ := r, buffer := buf', wf := wf', finished := fin', out := out', batch := b', woken := w', cpc := .midReady 0 wid }) rfl rfl rfl hcur h0 hpos
+          simp only [hpc]; simp only [pos]
+          omega
   case flowClear =>
     simp only [Option.some.injEq] at h; subst h
     cstep hpc
@@ -334,6 +382,31 @@ theorem meas_stepC_c (h : stepC s = some s')
       · cases h
   case done => cases h
 
+/-- the mid-call `until_all_ready()`: one wait per slot, then back into the result loop -/
+theorem meas_stepC_d (h : stepC s = some s') {i wid : Nat} (hpc : s.cpc = .midReady i wid) : meas s' < meas s := by
+  simp only [stepC, hpc] at h
+  split at h
+  · cases h
+  · split at h
+    · split at h
+      · rename_i wid' hw'
+        have hi : i + 1 < s.procs.length := by
+          rcases Nat.lt_or_ge (i + 1) s.procs.length with hh | hh
+          · exact hh
+          · rw [List.getElem?_eq_none hh] at hw'; cases hw'
+        simp only [Option.some.injEq] at h; subst h
+        refine meas_lt_C0 rfl rfl rfl ?_ (mF_congr rfl rfl rfl rfl) (mW_congr rfl) (mR_congr rfl rfl) (mQ_congr rfl rfl) ?_
+        · simp [preStart, hpc]
+        · simp only [hpc]; simp only [pos]; omega
+      · simp only [Option.some.injEq] at h; subst h
+        obtain ⟨c', heq, hcl⟩ := afterBatch_eq s
+        rw [heq]
+        refine meas_lt_C0 rfl rfl rfl ?_ (mF_congr rfl rfl rfl rfl) (mW_congr rfl) (mR_congr rfl rfl) (mQ_congr rfl rfl) ?_
+        · rw [preStart_after hcl rfl]; simp [preStart, hpc]
+        · refine Nat.lt_of_le_of_lt (pos_after hcl _ _) ?_
+          simp only [hpc]; simp only [pos]; omega
+    · cases h
+
 /-- every step of every thread decreases the measure -/
 theorem meas_step {tid : Tid} (hf : NoFaults s.cfg) (hw : WellCfg s.cfg) (hS : SafeInv s) (hL : LInv s) (hV : LiveInv s)
     (h : step s tid = some s') : meas s' < meas s := by
@@ -341,6 +414,7 @@ theorem meas_step {tid : Tid} (hf : NoFaults s.cfg) (hw : WellCfg s.cfg) (hS : S
   | c =>
     have h : stepC s = some s' := h
     cases hpc : s.cpc
+    case midReady i wid => exact meas_stepC_d h hpc
     case rdSending | rdDataCnt | qsize1 | lockAcq | qsize2 | getNowait | lockRel | getBlock | flowClear | flowIsSet | flowSet =>
       exact meas_stepC_b hS hV h (by rw [hpc]; rfl)
     case fStopSet | fJoin | rPutNone | rStopSet | rJoin | exitPut | exitJoin | done =>
